@@ -106,7 +106,17 @@ def check_can_write(chk) -> None:
                     return a[1]
             return None
 
-        cif = [(d, rv, st) for d, rv, st in results if fmt_of(d) == "mmCIF" and not any(a and a[0] == "empty" and v for a, v in d)]
+        def feasible(dec):
+            # `c in df.columns` and `c not in df.columns` are two texts for one fact: a path that takes them both ways does not exist
+            seen = {}
+            for a, v in dec:
+                if a and a[0] == "missing":
+                    miss = v == a[2]
+                    if seen.setdefault(a[1], miss) != miss:
+                        return False
+            return True
+
+        cif = [(d, rv, st) for d, rv, st in results if fmt_of(d) == "mmCIF" and feasible(d) and not any(a and a[0] == "empty" and v for a, v in d)]
         for col, (q, lim) in want.items():
             # some path must test the limit with `>` and the pinned constant
             overs = [(a, v) for d, rv, st in cif for a, v in d if a and a[0] == "over" and a[1] == col]
@@ -618,6 +628,17 @@ def run(chk) -> None:
     check_fit(chk)
     for rule, n in (("fit-test", 4), ("feasibility", 1), ("residue-map", 2), ("chain-map", 2), ("rename-injective", 3), ("rename-coverage", 1), ("dtype-typestate", 3), ("frame-condition", 2)):
         chk.floor(rule, n)
+    from checks import c10w
+
+    try:
+        c10w.check_fit_before_write(chk, [("splitter", "main"), ("unifier", "main")])  # observation points: what reaches write_pdb went through the fit
+    except AnalysisError:
+        raise
+    except Exception as ex:
+        chk.error("fit-before-write", "-", f"path reading of the CLI write paths failed internally ({type(ex).__name__}: {str(ex)[:60]})")
+    from sa import memoshare
+
+    memoshare.check(chk, "C10")  # a memoised function must not hand one mutable object to every caller
 
 
 MANIFEST_ENTRY = {
